@@ -128,7 +128,7 @@ pub fn expected_frame_rows(bytes: &[u8], filter: Option<Filter>, data: bool) -> 
     rows
 }
 
-fn parse_rows(out: &str) -> Vec<Vec<String>> {
+pub fn parse_rows(out: &str) -> Vec<Vec<String>> {
     let mut rows = Vec::new();
     for line in out.lines() {
         let Some((a, _)) = line.split_once(':') else { continue };
